@@ -715,8 +715,14 @@ fn observe(src: &str) -> Obs {
     let first = parse_once(src);
     let (second_src, second) = match &first {
         Parsed::Tree { printed, heredocs, bodies, .. } => {
+            // a text that ends with an unquoted backslash cannot be followed by
+            // the newline that introduces the here-document bodies (it would
+            // be a line continuation)
+            let trailing_backslashes = printed.chars().rev().take_while(|c| *c == '\\').count();
             if *heredocs == 0 {
                 (Some(printed.clone()), Some(parse_once(printed)))
+            } else if trailing_backslashes % 2 == 1 {
+                (None, None)
             } else if let Some(b) = bodies {
                 let s = format!("{}\n{}", printed, b);
                 let p = parse_once(&s);
@@ -1764,7 +1770,7 @@ fn main() {
     // 2. grammar-generated programs
     let mut bases: Vec<String> = vec![];
     let mut gr = rng.fork(1);
-    for k in 0..args.scale(700, 12000) {
+    for k in 0..args.scale(700, 14000) {
         let mut g = Gen::new(gr.fork(k as u64));
         let src = g.program();
         e.emit("grammar", &format!("grammar#{k}"), &src);
@@ -1791,7 +1797,7 @@ fn main() {
 
     // 4. mutations of programs from 2 and 3
     let mut mr = rng.fork(3);
-    for k in 0..args.scale(450, 9000) {
+    for k in 0..args.scale(450, 10000) {
         let mut r = mr.fork(k as u64);
         let base = bases[r.below(bases.len())].clone();
         let base = if base.len() > 300 {
